@@ -12,9 +12,7 @@ def csGood : List CInst :=
   [.smov 4 0x200000, .smov 5 0, .vxor 2 4 0, .vmov 3 5, .fld 6 2, .wait 0 0, .vxor 7 4 6, .fst 2 7, .endp]
 def PGood : Prog := cprog 0x1000 csGood noForeign
 
-theorem PGood_wf : PGood.WF := by
-  apply cprog_wf
-  intro d h; simp [csGood] at h
+theorem PGood_wf : PGood.WF := cprog_wf _ _ _
 
 
 /-- a schedule the rules accept: one fetch, the load performed and returned while the wavefront sits
@@ -31,9 +29,7 @@ def csBad : List CInst :=
   [.smov 4 0x200000, .smov 5 0, .vxor 2 4 0, .vmov 3 5, .fld 6 2, .vxor 7 4 6, .endp]
 def PBad : Prog := cprog 0x1000 csBad noForeign
 
-theorem PBad_wf : PBad.WF := by
-  apply cprog_wf
-  intro d h; simp [csBad] at h
+theorem PBad_wf : PBad.WF := cprog_wf _ _ _
 
 /-- the `v_xor` executes while the load is in flight; the load is performed and returns afterwards -/
 def evsBad : List Ev :=
@@ -44,6 +40,9 @@ def evsBad : List Ev :=
 
 def csPc : List CInst := [.getpc 4, .endp]
 def PPc : Prog := cprog 0x1000 csPc noForeign
+theorem PPc_wf : PPc.WF := cprog_wf _ _ _
+/-- the same program on the compute unit before the repairs -/
+def PPcOld : Prog := { PPc with oldCU := true }
 def evsPc : List Ev := [.fetch, .fetchRet, .decode, .issue, .exec, .complete, .decode, .issue, .complete]
 
 
@@ -54,9 +53,10 @@ def csEmpty : List CInst :=
    .wait 1 15, .vxor 7 4 6, .wait 0 0, .endp]
 def PEmpty : Prog := cprog 0x1000 csEmpty noForeign
 
-theorem PEmpty_wf : PEmpty.WF := by
-  apply cprog_wf
-  intro d h; simp [csEmpty] at h
+/-- the same program on the compute unit before the repairs -/
+def PEmptyOld : Prog := { PEmpty with oldCU := true }
+
+theorem PEmpty_wf : PEmpty.WF := cprog_wf _ _ _
 
 def evsEmpty : List Ev :=
   [.fetch, .fetchRet, .decode, .issue, .exec, .complete, .decode, .issue, .exec, .complete,
@@ -70,6 +70,19 @@ def evsEmpty : List Ev :=
    .decode, .issue, .serveV 0, .retV, .complete, -- s_waitcnt 0: load A returns now
    .fetch, .fetchRet, .decode, .issue, .complete]
 
+
+/-- the repaired compute unit: load B (no transaction) executes only after load A has returned -/
+def evsEmptyFixed : List Ev :=
+  [.fetch, .fetchRet, .decode, .issue, .exec, .complete, .decode, .issue, .exec, .complete,
+   .decode, .issue, .exec, .complete, .decode, .issue, .exec, .complete,
+   .decode, .issue, .exec,                       -- load A
+   .decode, .issue, .exec, .complete,            -- EXEC := 0
+   .decode, .issue, .serveV 0, .retV, .exec,     -- load B: waits for A, then completes
+   .decode, .issue, .exec, .complete,            -- EXEC := 3
+   .decode, .issue, .complete,                   -- s_waitcnt vmcnt(1)
+   .decode, .issue, .exec, .complete,            -- v_xor reads the loaded v6
+   .decode, .issue, .complete,
+   .decode, .issue, .complete]
 
 /-! two wavefronts: each loads a dword per lane from its own window and one scalar from a window both
     read, xors them and stores the result back into its own window -/
@@ -87,8 +100,8 @@ def PTwo (base A : Nat) : Prog :=
     wown := fun a => inWin A 0x100 a }
 
 theorem PTwo_wf (base A : Nat) : (PTwo base A).WF :=
-  let h := cprog_wf base (csTwo A) (fun _ => false) (by intro d h; simp [csTwo] at h)
-  ⟨h.inst, h.pfx⟩
+  let h := cprog_wf base (csTwo A) (fun _ => false)
+  ⟨rfl, h.inst, h.pfx⟩
 
 def evsTwo : List Ev :=
   [.fetch, .fetchRet, .fetch, .fetchRet,
